@@ -2047,9 +2047,16 @@ int yr_re_exec(
         break;
 
       case ACTION_CONTINUE:
+        // _yr_re_fiber_sync can kill the fiber it is given (when it reaches a
+        // split instruction that was already executed), the fiber must not be
+        // used after the call. Fibers created by the sync are linked after
+        // the synced one, so execution goes on with the fiber that follows
+        // the previous one now.
+        next_fiber = fiber->prev;
         FAIL_ON_ERROR_WITH_CLEANUP(
             _yr_re_fiber_sync(&fibers, &context->re_fiber_pool, fiber),
             _yr_re_fiber_kill_all(&fibers, &context->re_fiber_pool));
+        fiber = (next_fiber != NULL) ? next_fiber->next : fibers.head;
         break;
 
       default:
